@@ -546,6 +546,12 @@ def cast_check(wd, rep, dims):
                 lines.append("namespace c%d { using R = %s; template<class RR = R> auto f(int) -> std::integral_constant<int, std::is_assignable_v<elem_t<decltype(%s)>, %s> ? 1 : 0>; "
                              "template<class RR = R> auto f(...) -> std::integral_constant<int, -1>; static_assert(decltype(f<>(0))::value == 99, \"W16C %d\"); }" % (k, rtt, ex, vt, k))
                 idx[k] = (D, rn, on, (1 if mut else 0) if force is None else (1 if force else 0), mut)
+                if mut:
+                    # the projection itself held by const& (auto const& cv = a.element_transformed(f)): read-only whatever the source was
+                    k += 1
+                    lines.append("namespace c%d { using R = %s; template<class RR = R> auto f(int) -> std::integral_constant<int, std::is_assignable_v<elem_t<std::add_lvalue_reference_t<std::add_const_t<std::remove_reference_t<decltype(%s)>>>>, %s> ? 1 : 0>; "
+                                 "template<class RR = R> auto f(...) -> std::integral_constant<int, -1>; static_assert(decltype(f<>(0))::value == 99, \"W16C %d\"); }" % (k, rtt, ex, vt, k))
+                    idx[k] = (D, rn, on + " held by auto const&", 0, False)
     tu = os.path.join(wd, "casts.cpp")
     with open(tu, "w") as fh:
         fh.write("\n".join(lines) + "\n")
@@ -579,4 +585,46 @@ def cast_check(wd, rep, dims):
             rep.violated(key, "W16.cast", "%s (%s) yields a modifiable element reference although the source is const / read-only" % (key[9:], ", ".join(ds)), dict(dims=ds))
         else:
             rep.violated(key, "W16.cast", "%s (%s) of a mutable source yields a read-only element" % (key[12:], ", ".join(ds)), dict(dims=ds))
-    rep.need_instances("W16.cast well-formed (cast, root, D)", n, 100 if len(dims) == 2 else 150)
+    # W16.arrow: member access through 1-D iterators (it->member) of class-type elements
+    arrows = [
+        ("array<S3,1> const& .begin()", "std::declval<multi::array<S3, 1> const&>().begin()", 0),
+        ("array<S3,1>& .cbegin()", "std::declval<multi::array<S3, 1>&>().cbegin()", 0),
+        ("array<S3,1>& .begin()", "std::declval<multi::array<S3, 1>&>().begin()", 1),
+        ("array<S3,2> const& [0].begin()", "std::declval<multi::array<S3, 2> const&>()[0].begin()", 0),
+        ("array<S3,2>& [0].cbegin()", "std::declval<multi::array<S3, 2>&>()[0].cbegin()", 0),
+        ("array<S3,2>& [0].begin()", "std::declval<multi::array<S3, 2>&>()[0].begin()", 1),
+        ("array<S3,3> const& [0][0].end()", "std::declval<multi::array<S3, 3> const&>()[0][0].end()", 0),
+        ("array_ref<S3,1> const& .begin()", "std::declval<multi::array_ref<S3, 1> const&>().begin()", 0),
+        ("view of a const array<S3,2> .rotated()[0].begin()", "std::declval<multi::array<S3, 2> const&>().rotated()[0].begin()", 0),
+        ("const& view of array<S3,1> .begin()", "std::declval<decltype(std::declval<multi::array<S3, 1>&>()()) const&>().begin()", 0),
+    ]
+    alines = [CAST_PRE]
+    for k2, (nm, ex, want) in enumerate(arrows):
+        alines.append("namespace a%d { template<class = void> auto f(int) -> std::integral_constant<int, std::is_assignable_v<decltype(((%s)->y)), double> ? 1 : 0>; "
+                      "template<class = void> auto f(...) -> std::integral_constant<int, -1>; static_assert(decltype(f<>(0))::value == 99, \"W16A %d\"); }" % (k2, ex, k2))
+    tu2 = os.path.join(wd, "arrows.cpp")
+    with open(tu2, "w") as fh:
+        fh.write("\n".join(alines) + "\n")
+    rc2, diags2, raw2 = witness.compile_tu(tu2)
+    got2 = {}
+    for e, notes in witness.group_errors(diags2):
+        m = re.search(r"integral_constant<int, (-?\d+)>::value == 99' \"W16A (\d+)\"", e["msg"])
+        if m:
+            got2[int(m.group(2))] = int(m.group(1))
+        else:
+            rep.break_("W16.arrow witness TU: " + e["msg"][:160])
+    narrow = 0
+    for k2, (nm, ex, want) in enumerate(arrows):
+        v = got2.get(k2)
+        if v is None or v == -1:
+            rep.break_("W16.arrow witness for %s produced no verdict (%r)" % (nm, v))
+            continue
+        narrow += 1
+        if v == want:
+            rep.ok("W16.arrow:%s" % nm, "W16.arrow", None)
+        elif want == 0:
+            rep.violated("W16.arrow:it->member on %s" % nm, "W16.arrow", "it->member through %s is assignable although the source is const / read-only" % nm, dict())
+        else:
+            rep.violated("W16.arrowmut:it->member on %s" % nm, "W16.arrow", "it->member through %s of a mutable source is read-only" % nm, dict())
+    rep.need_instances("W16.arrow witnesses", narrow, 10)
+    rep.need_instances("W16.cast well-formed (cast, root, D)", n, 150 if len(dims) == 2 else 225)
